@@ -146,6 +146,65 @@ theorem pownat_jet {x : List ℝ} {X : ℝ → ℝ} (hx : JetOf x X) (r : ℕ) :
     simp only [powNatS]
     exact (foldl_mul_jet hx (r + 2)).1
 
+/-! ### large integer exponents: square and multiply -/
+theorem powBinLoop_jet (fuel : ℕ) : ∀ (e : ℕ) (base acc : List ℝ) (B A : ℝ → ℝ), e ≤ fuel →
+    JetOf base B → JetOf acc A → acc.length = base.length →
+    JetOf (powBinLoop fuel e base acc) (fun t => A t * B t ^ e) ∧ (powBinLoop fuel e base acc).length = base.length := by
+  induction fuel with
+  | zero =>
+    intro e base acc B A he hb ha hl
+    have : e = 0 := by omega
+    subst this
+    simp only [powBinLoop, pow_zero, mul_one]
+    exact ⟨ha, hl⟩
+  | succ fuel ih =>
+    intro e base acc B A he hb ha hl
+    simp only [powBinLoop]
+    by_cases h0 : e = 0
+    · subst h0
+      simp only [if_true, pow_zero, mul_one]
+      exact ⟨ha, hl⟩
+    · rw [if_neg h0]
+      -- the accumulator after the optional multiplication
+      have hacc : JetOf (if e % 2 = 1 then mulS base acc else acc) (fun t => A t * B t ^ (e % 2))
+          ∧ (if e % 2 = 1 then mulS base acc else acc).length = base.length := by
+        by_cases h1 : e % 2 = 1
+        · rw [if_pos h1, h1]
+          refine ⟨?_, by rw [mulS_length]⟩
+          have := hb.mul ha hl
+          have e' : (fun t => A t * B t ^ 1) = B * A := by funext t; simp only [Pi.mul_apply, pow_one]; ring
+          rw [e']; exact this
+        · rw [if_neg h1]
+          have h2 : e % 2 = 0 := by omega
+          rw [h2]
+          simp only [pow_zero, mul_one]
+          exact ⟨ha, hl⟩
+      by_cases h2 : e / 2 = 0
+      · simp only [h2, if_true]
+        have he1 : e % 2 = e := by omega
+        have hfun : (fun t => A t * B t ^ (e % 2)) = fun t => A t * B t ^ e := by rw [he1]
+        rw [hfun] at hacc
+        exact hacc
+      · simp only [h2, if_false]
+        have hbb : JetOf (mulS base base) (fun t => B t ^ 2) := by
+          have := hb.mul hb rfl
+          have e' : (fun t => B t ^ 2) = B * B := by funext t; simp only [Pi.mul_apply]; ring
+          rw [e']; exact this
+        have := ih (e / 2) (mulS base base) _ _ _ (by omega) hbb hacc.1 (by rw [hacc.2, mulS_length])
+        refine ⟨?_, by rw [this.2, mulS_length]⟩
+        have e' : (fun t => A t * B t ^ e) = fun t => (A t * B t ^ (e % 2)) * (B t ^ 2) ^ (e / 2) := by
+          funext t
+          rw [← pow_mul, mul_assoc, ← pow_add]
+          congr 2
+          omega
+        rw [e']; exact this.1
+
+/-- `x ** r` for a large integer `r` by square and multiply is the jet of `X ^ r` (the same curve as the repeated product) -/
+theorem powbin_jet {x : List ℝ} {X : ℝ → ℝ} (hx : JetOf x X) (r : ℕ) :
+    JetOf (powBinS r x) (fun t => X t ^ r) := by
+  have h := (powBinLoop_jet (r + 1) r x (constS 1 x.length) X (fun _ => 1) (by omega) hx (jetOf_const 1 _) (by simp [constS])).1
+  simpa [powBinS] using h
+
 /-! ### an array of non-negative integer exponents: masked repeated products (one entry of the array) -/
 theorem powMask_jet {x : List ℝ} {X : ℝ → ℝ} (hx : JetOf x X) (r m : ℕ) :
     JetOf (powMaskS r m x) (fun t => X t ^ (min r m)) ∧ (powMaskS r m x).length = x.length := by
